@@ -44,7 +44,7 @@ def expr_cols(e) -> set[str]:
         return set()
     if k == "neg":
         return expr_cols(e[1])
-    if k == "udf":
+    if k in ("udf", "udfu"):
         return expr_cols(e[2])
     return expr_cols(e[1]) | expr_cols(e[2])
 
@@ -80,6 +80,8 @@ def expr_udfs(e) -> set[str]:
         return expr_udfs(e[1])
     if k == "udf":
         return {e[1]} | expr_udfs(e[2])
+    if k == "udfu":
+        return {"u:" + e[1]} | expr_udfs(e[2])       # unrestricted twin: supported by every engine
     return expr_udfs(e[1]) | expr_udfs(e[2])
 
 
@@ -115,7 +117,7 @@ def eval_expr(e, row):
         return e[1]
     if k == "neg":
         return -eval_expr(e[1], row)
-    if k == "udf":
+    if k in ("udf", "udfu"):
         return UDFS[e[1]](eval_expr(e[2], row))
     return ARITH[k](eval_expr(e[1], row), eval_expr(e[2], row))
 
@@ -184,6 +186,9 @@ def build_expr(e, tags):
     if k == "udf":
         sup = (iteration.Engine,) if e[1] == "itonly" else None
         return ColumnExpression.function(e[1], build_expr(e[2], tags), dtype=int, supporting_engine_types=sup)
+    if k == "udfu":
+        # same name and arguments as the restricted function (hence == and equal hash), but no engine restriction
+        return ColumnExpression.function(e[1], build_expr(e[2], tags), dtype=int, supporting_engine_types=None)
     return ColumnFunction(
         f"__{k}__", (build_expr(e[1], tags), build_expr(e[2], tags)), dtype=int, supporting_engine_types=None
     )
